@@ -128,6 +128,9 @@ type hcScript struct {
 	truncated  bool   // the body ended (or failed) before a decodable OK trailer
 	cancelled  bool
 	cancelKind string
+	tooMany    bool     // a RecvMsg reported the "server sent >1" protocol violation
+	afterMany  []string // results of the RecvMsg calls that came after that verdict
+	recvAll    []string // every RecvMsg result in order
 }
 
 func (sc *hcScript) line() string {
@@ -184,7 +187,9 @@ func runHCScript(rng *Rng, respStream bool, nsteps int, fixed []string) *hcScrip
 		return &http.Response{StatusCode: code, Status: fmt.Sprintf("%d %s", code, http.StatusText(code)), Proto: "HTTP/1.1", ProtoMajor: 1, ProtoMinor: 1,
 			Header: hdr, Body: tr.body, Request: tr.req, ContentLength: -1}
 	}
+	recvNote := "" // text of the error the last completed RecvMsg returned (written by the cr actor, read after it settled)
 	exec := func(op string) hcStep {
+		noteStep("http-client/stream", sc.line(), op)
 		st := hcStep{op: op}
 		name, arg := op, ""
 		if i := strings.Index(op, ":"); i >= 0 {
@@ -254,6 +259,23 @@ func runHCScript(rng *Rng, respStream bool, nsteps int, fixed []string) *hcScrip
 				}
 			}
 			st.evs = eng.settle()
+		case "t.burst":
+			// a data frame and the trailer frame become readable together
+			parts := strings.Split(arg, ":")
+			id, _ := strconv.Atoi(parts[0])
+			c, _ := strconv.Atoi(parts[1])
+			b1, _ := proto.Marshal(&Msg{Count: int32(id)})
+			b2, _ := proto.Marshal(&httpgrpc.HttpTrailer{Code: int32(c), Message: "scripted"})
+			tr.body.supply(append(frameBytes(b1, false), frameBytes(b2, true)...))
+			tr.body.end(nil)
+			sc.supplied = append(sc.supplied, id)
+			trailerSupplied, bodyOpen = true, false
+			if c == 0 {
+				sc.trailerOK = true
+			} else if !sc.trailerOK {
+				sc.truncated = true
+			}
+			st.evs = eng.settle()
 		case "t.end":
 			tr.body.end(nil)
 			bodyOpen = false
@@ -287,10 +309,19 @@ func runHCScript(rng *Rng, respStream bool, nsteps int, fixed []string) *hcScrip
 			st.evs = eng.do("cr", func() string {
 				var m Msg
 				if err := cs.RecvMsg(&m); err != nil {
+					recvNote = err.Error()
 					return hcRes(err)
 				}
 				return "msg:" + strconv.Itoa(int(m.Count))
 			})
+			if res, ok := evRes(st.evs, "cr"); ok {
+				sc.recvAll = append(sc.recvAll, res)
+				if sc.tooMany {
+					sc.afterMany = append(sc.afterMany, res)
+				} else if strings.Contains(recvNote, "server sent >1") {
+					sc.tooMany = true
+				}
+			}
 		case "cr.header":
 			st.evs = eng.do("cr", func() string {
 				_, err := cs.Header()
@@ -344,6 +375,7 @@ func runHCScript(rng *Rng, respStream bool, nsteps int, fixed []string) *hcScrip
 			}
 			if replied && bodyOpen && !trailerSupplied {
 				id := strconv.Itoa(200 + nextID)
+				cands = append(cands, "t.burst:"+id+":0", "t.burst:"+id+":"+strconv.Itoa(rng.Intn(17)))
 				cands = append(cands, "t.item:data:"+id, "t.item:data:"+id, "t.item:data:"+id, "t.item:baddata:"+id,
 					"t.item:trailer:0", "t.item:trailer:"+strconv.Itoa(rng.Intn(17)), "t.item:badtrailer", "t.item:bad")
 			}
@@ -406,6 +438,30 @@ func hcOracle(r *Run, prop string, sc *hcScript) (nontrivial bool) {
 	if len(sc.panics) > 0 {
 		r.Violate("http-client/stream/panic", "no interleaving makes the library panic", fmt.Sprint(sc.panics), desc, line)
 	}
+	// clauses shared by the properties that speak about the outcome of a stream
+	if prop == "C02" || prop == "C04" || prop == "C05" || prop == "C08" {
+		for _, res := range sc.recvAll {
+			if strings.HasPrefix(res, "ctxerr:") {
+				r.Violate("http-client/stream/bare-context-error", "a gRPC status of Canceled or DeadlineExceeded … never a bare io.EOF or other non-status error", sprintf("RecvMsg returned the bare context error %s", res), desc, line)
+				break
+			}
+		}
+		sawEOF := false
+		for _, res := range sc.recvAll {
+			if sawEOF && res != "eof" && !sc.cancelled {
+				r.Violate("http-client/stream/outcome-after-eof", "receives drain what was delivered and then yield the final status", sprintf("RecvMsg returned %s after io.EOF", res), desc, line)
+				break
+			}
+			sawEOF = sawEOF || res == "eof"
+		}
+		for _, res := range sc.afterMany {
+			if res != "status:13" {
+				r.Violate("http-client/stream/second-response-verdict-lost", "a handler that produces more than one response is reported as an error, never as success",
+					sprintf("RecvMsg reported the second response as an Internal error, and a later RecvMsg returned %s", res), desc, line)
+				break
+			}
+		}
+	}
 	switch prop {
 	case "C01":
 		nontrivial = len(sc.delivered) > 0
@@ -436,6 +492,9 @@ func hcOracle(r *Run, prop string, sc *hcScript) (nontrivial bool) {
 		if !sc.respStream && len(sc.delivered) > 0 && !sc.trailerOK {
 			r.Violate("http-client/stream/single-response-without-ok", "exactly one response message together with success, or a non-OK status", sprintf("a message was returned (%s) although no OK trailer was supplied", intsStr(sc.delivered)), desc, line)
 		}
+		if !sc.respStream && len(sc.delivered) > 0 && len(sc.supplied) > 1 && !sc.cancelled {
+			r.Violate("http-client/stream/success-with-two-responses", "a handler that produces more than one response is reported as an error, never as success carrying an arbitrary one of the messages", sprintf("the transport supplied %s; RecvMsg returned %s with a nil error", intsStr(sc.supplied), intsStr(sc.delivered)), desc, line)
+		}
 		if !sc.respStream && len(sc.delivered) > 1 {
 			r.Violate("http-client/stream/more-than-one-response", "exactly one response message", intsStr(sc.delivered), desc, line)
 		}
@@ -443,8 +502,29 @@ func hcOracle(r *Run, prop string, sc *hcScript) (nontrivial bool) {
 	return
 }
 
+// raceScripts: everything is readable at once when the client starts receiving, so the client's verdict on a second
+// response races with the reader goroutine reaching the trailer frame. Repeated, because the schedule is the runtime's.
+var hcRaceScripts = [][]string{
+	{"t.reply", "t.item:data:202", "t.item:data:203", "t.item:trailer:0", "cr.recv", "cr.recv", "cr.recv"},
+	{"t.reply", "t.item:data:202", "t.item:baddata:203", "t.item:trailer:0", "cr.recv", "cr.recv"},
+	{"t.reply", "t.item:data:202", "t.item:data:203", "t.item:trailer:1", "cr.recv", "cr.recv"},
+	{"t.reply", "t.item:data:202", "t.item:data:203", "t.item:badtrailer", "cr.recv", "cr.recv"},
+	{"t.reply", "t.item:data:201", "cr.recv", "t.burst:202:0", "cr.recv", "cr.recv"},
+}
+
 func hcSuite(r *Run, prop string) {
 	rng := r.Rng.Fork("hc")
+	if prop == "C02" || prop == "C05" || prop == "C08" {
+		for rep := 0; rep < r.Budget(40, 400); rep++ {
+			for _, fixed := range hcRaceScripts {
+				sc := runHCScript(rng, false, 0, fixed)
+				r.Op(sc.line(), "observed")
+				r.TracesOnImpl++
+				r.Count("transport:http-client-race")
+				r.Eval(sc.line(), hcOracle(r, prop, sc))
+			}
+		}
+	}
 	n := r.Budget(200, 4000)
 	for i := 0; i < n; i++ {
 		respStream := i%3 != 0
